@@ -1,5 +1,6 @@
 import ParolModel.Proofs.LaMain
 import ParolModel.Proofs.LaOrder3
+import ParolModel.Proofs.LaTotal
 /-! # C07 — Lookahead automata encode exactly the lookahead sets
 
 Property text: *For every non-terminal of an accepted LL(k) grammar, the compiled (minimized)
@@ -19,8 +20,9 @@ before the repair of its `k`), the loop of `calculate_lookahead_dfas` for one no
 `AdjacencyList::minimize`, `renumber_states`, `as_compiled_dfa`). The hash-map iteration orders of
 `group_by` are the explicit parameter `ch`; every theorem below holds for all `ch`. The model
 functions return `none`/`.error` where the Rust code would panic or report a conflict; the theorems
-are about the successful results (that the model succeeds is shown on examples here and observed on
-every explored case by the differential tie). -/
+are about the successful results. That `unite` succeeds on such sets (up to the model's fuel) is
+`unite_no_false_conflict`; that the minimisation succeeds is shown on examples here and observed on
+every explored case by the differential tie (the model's reply equals the implementation's). -/
 namespace ParolModel
 
 /-- **Tries** (`from_k_tuples`): *"reaches a state predicting production p on a token string w
@@ -50,6 +52,14 @@ theorem unite_accepts (k : Nat) {P : List (Nat × List Tuple)} {p : Nat} {S : Li
   have okP : SetsOk P := ok.subset (fun q hq => List.mem_append_left _ hq)
   have hP : P ≠ [] := by intro he; subst he; simp [uniteAll] at hd
   exact (built_step k ok hP (built_all okP hd) h).runRef w
+
+/-- **No false conflict**: for non-empty, pairwise disjoint, prefix-free tuple sets the uniting
+    loop never reports `Conflict in union operation` and never reaches a panic path; it yields an
+    automaton (the only other outcome of the *model* is exhausted fuel, which the driver would print
+    as `fuel-exhausted` and which was never observed). -/
+theorem unite_no_false_conflict (k : Nat) {sets : List (Nat × List Tuple)} (ok : SetsOk sets) (hne : sets ≠ []) :
+    (∃ d, uniteAll true k sets = some (.ok d)) ∨ uniteAll true k sets = some (.error .fuel) :=
+  uniteAll_ok_or_fuel k ok hne
 
 /-- Without prefix-freeness `unite_accepts` is false: `coin_state` is unconditional, so the
     accepting mark of `5` (production 0) is erased when `5 6` (production 1) is united into it. -/
